@@ -10,6 +10,7 @@ mod c02;
 mod c03;
 mod c06;
 mod c07;
+mod c08;
 mod c14;
 mod c15;
 mod c18;
@@ -75,6 +76,7 @@ fn main() {
         "C03" => c03::run(&eng, replay.as_deref()),
         "C06" => c06::run(&eng, replay.as_deref()),
         "C07" => c07::run(&eng, replay.as_deref()),
+        "C08" => c08::run(&eng, replay.as_deref()),
         "C14" => c14::run(&eng, replay.as_deref()),
         "C15" => c15::run(&eng, replay.as_deref()),
         "C18" => c18::run(&eng, replay.as_deref()),
